@@ -42,6 +42,8 @@ def gen_timer_seqs(seed, n):
                 tok = r.choice(["x", ":LALAL", "12345", ":some thing", ":", ":é"]) if pattern == "token" else ":LALAL"
                 ops.append("line 1 " + esc("PONG " + tok))
                 answered += 1
+                if r.random() < 0.15:
+                    ops.append("line 1 " + esc(r.choice(["CAP LS 302", "CAP REQ :multi-prefix", "CAP LIST", "LUSERS", "JOIN #a"])))
                 if pattern == "pingcmd" and r.random() < 0.5:
                     ops.append("line 1 " + esc(r.choice(["PING tok%d" % answered, "PING :", "PING :a b"])))
             elif pattern == "unsolicited":
@@ -56,13 +58,15 @@ def gen_timer_seqs(seed, n):
                 ops.append("advance %d" % d)
                 t += d
                 ops.append("line 1 " + esc(r.choice(["PING keep", "PING :x y", "LUSERS", "PING keep", "JOIN #a", "PRIVMSG a :hi",
-                                                     "NOTICE a :n", "MODE a +i", "AWAY :brb", "TIME"])))
+                                                     "NOTICE a :n", "MODE a +i", "AWAY :brb", "TIME", "CAP LS 302",
+                                                     "CAP REQ :multi-prefix", "CAP LIST", "NICK a2", "OPER x y"])))
             else:
                 d = r.choice([500, 1000, 2500, 4000])
                 ops.append("advance %d" % d)
                 t += d
-                if r.random() < 0.2:
-                    ops.append("line 1 " + esc(r.choice(["LUSERS", "PING keep", "JOIN #a", "PRIVMSG a :hi"])))
+                if r.random() < 0.3:
+                    ops.append("line 1 " + esc(r.choice(["LUSERS", "PING keep", "JOIN #a", "PRIVMSG a :hi", "CAP LS 302",
+                                                         "CAP REQ :multi-prefix", "CAP END", "MODE a +w"])))
         cfg = ["cfg name irc.test", "cfg ping_timeout %d" % P, "cfg pong_timeout %d" % T]
         seqs.append(("timer-%d-%d-P%d-T%d-%s" % (seed, i, P, T, pattern), cfg, ops, (P, T, pattern)))
     return seqs
@@ -132,6 +136,12 @@ def timer_oracle(ops, P, T, events):
     end = t
     pings = [ms for (c, ms, k) in events if k == "PING"]
     errs = [ms for (c, ms, k) in events if k == "ERROR"]
+    # "after registration it sends the client a PING every ping_timeout seconds" (registration is at virtual time 0)
+    stop = errs[0] if errs else end
+    marks = [0] + sorted(p for p in pings if p <= stop) + [stop]
+    for a, b in zip(marks, marks[1:]):
+        if b - a > P * 1000 + 150:
+            return "ping-not-sent-every-ping_timeout"
     for p in pings:
         answered = any(p <= q < p + T * 1000 for q in pong_times)
         later_pong = any(q >= p for q in pong_times)
@@ -348,8 +358,16 @@ def gen_order_scenarios(seed, n):
         setup = reg(1, "a") + reg(2, "b") + [L(1, "JOIN #c"), L(2, "JOIN #c")]
         k = r.choice([6, 10, 16])
         cmds = []
+        many = ["#m%d" % x for x in range(r.choice([17, 20, 33]))]
+        bulk_at = r.randrange(k) if i % 3 == 0 else None
+        if bulk_at is not None:
+            # one command with MANY own echoes (more than any per-turn cap somebody might put on the drain)
+            setup = setup + [L(1, "JOIN " + ",".join(many[:17])), L(1, "JOIN " + ",".join(many[17:]) if many[17:] else "LUSERS")]
         for j in range(k):
             t = "tok%02dx" % j
+            if j == bulk_at:
+                cmds.append(L(1, "PART %s :%s" % (",".join(many), t)))
+                continue
             cmds.append(L(1, r.choice(["TOPIC #c :%s" % t, "PING %s" % t, "PRIVMSG a :%s" % t, "PRIVMSG b :%s" % t,
                                         "PRIVMSG #c :%s" % t, "MODE #c +k %s" % t, "WHOIS %s" % t, "JOIN #%s" % t,
                                         "KICK #c %s" % t, "NOTICE a :%s" % t, "TOPIC #c :%s" % t, "PING %s" % t,
